@@ -10,20 +10,20 @@ BLOCK_ASSUME = ["granularity handler without rules (granularity 1) unless stated
                 "user data is never nil (the linear algorithm uses nil as its free marker)", "alignment is a power of two",
                 "handles passed to free/lookup belong to live allocations"]
 LIN_Q = "linear: all histories of 3 operations (lower/upper request+commit with symbolic size in [1,2B] and alignment 2^0..2^5, free of any live allocation) from an empty 100-byte block"
-LIN_RECIPES = "recipe states: small ring buffer L3(2,1,2), ring buffer L3(3,j,m) (j in {1,2} freed at the front, m in {2,3,4} wrapped around), double stack L2(2,2), stack L1(4) with both middle entries freed, compaction family (36 entries in the first vector, 21 freed in the middle, with and without an upper stack), each followed by arbitrary operations"
+LIN_RECIPES = "recipe states: small ring buffer L3(2,1,2); ring L3(2,1,3) with one symbolic size, ring buffer L3(3,j,m) (j in {1,2} freed at the front, m in {2,3,4} wrapped around), double stack L2(2,2), stack L1(4) with both middle entries freed, compaction family (36 entries in the first vector, 21 freed in the middle, with and without an upper stack), each followed by arbitrary operations"
 TLSF_Q = "TLSF: recipe state with three holes of symbolic sizes 1..64 in one free list (freed in every order) + 1 operation; all histories of 3 operations (request+commit with symbolic size in [1,2B], alignment 2^0..2^6, strategy in {0,1,2,4}; free of any live allocation) on blocks of 256 and 320 bytes"
 OUT = "histories longer than stated from the stated recipe states; block sizes other than those listed; granularity rules (covered by C09); debug_mem_utils builds"
 
 checks = {}
 checks["C01"] = {
  "level": "model_checking",
- "jobs": [job("Verif_C01_Linear", [0, 2, 3, 4, 5, 6, 7], [0, 1, 2, 3, 4, 5, 6, 7]), job("Verif_C01_TLSF", [0, 1, 20], [0, 1, 2, 10, 11, 20, 21])],
- "bounds_quick": LIN_Q + "; " + LIN_RECIPES + " (quick: without the ring-buffer recipe; 2 operations after a recipe, 1 after compaction); " + TLSF_Q,
+ "jobs": [job("Verif_C01_Linear", [0, 2, 3, 4, 5, 6, 7, 8], [0, 1, 2, 3, 4, 5, 6, 7, 8]), job("Verif_C01_TLSF", [0, 1, 20, 30], [0, 1, 2, 10, 11, 20, 21, 30])],
+ "bounds_quick": LIN_Q + "; " + LIN_RECIPES + " (quick: without the ring-buffer recipe; 2 operations after a recipe, 1 after compaction); " + TLSF_Q + "; TLSF one-hole recipe (100-byte hole at the unaligned offset 10 between live allocations) + 2 operations with symbolic alignment",
  "bounds_thorough": "as quick with 4 operations per history (3 after a recipe, 2 after compaction), block sizes 100 and 128 (linear) / 256, 320, 1000 (TLSF), ring-buffer recipe, TLSF recipe T(n<=4,F,pi) + 2 operations",
  "assumptions": BLOCK_ASSUME, "outside": OUT}
 checks["C03"] = {
  "level": "model_checking",
- "jobs": [job("Verif_C03_Linear", [0, 4, 5, 7], [0, 1, 2, 3, 4, 5, 6, 7]), job("Verif_C03_TLSF", [0, 1, 20], [0, 1, 2, 10, 11, 20, 21])],
+ "jobs": [job("Verif_C03_Linear", [0, 4, 5, 7, 8], [0, 1, 2, 3, 4, 5, 6, 7, 8]), job("Verif_C03_TLSF", [0, 1, 20], [0, 1, 2, 10, 11, 20, 21, 30])],
  "bounds_quick": LIN_Q + " and the compaction family with an upper stack + 1 operation; " + TLSF_Q.replace("256 and 320", "256") + ". After every operation: tiling of the enumerated regions, allocation count, free bytes, emptiness flag, Statistics, DetailedStatistics (min/max, unused ranges) against the harness' own live set, and Validate()==nil (Validate is executed symbolically as code under test).",
  "bounds_thorough": "as quick with 4 operations, all linear recipes, TLSF blocks 256/320 and recipe T(n<=4,F,pi)",
  "assumptions": BLOCK_ASSUME, "outside": OUT}
@@ -35,31 +35,31 @@ checks["C05"] = {
  "assumptions": BLOCK_ASSUME + ["granularity rules in force: none (null handler); the granularity-aware variant is part of C09's harness"], "outside": OUT}
 checks["C06"] = {
  "level": "model_checking",
- "jobs": [job("Verif_C06_Linear", [0, 3, 5, 7], [0, 1, 2, 3, 4, 5, 6, 7]), job("Verif_C06_TLSF", [0, 1, 20], [0, 1, 10, 11, 20, 21])],
+ "jobs": [job("Verif_C06_Linear", [0, 3, 5, 7, 8], [0, 1, 2, 3, 4, 5, 6, 7, 8]), job("Verif_C06_TLSF", [0, 1, 20], [0, 1, 10, 11, 20, 21])],
  "bounds_quick": LIN_Q + ", double-stack recipe and compaction family; " + TLSF_Q + "; after the history every remaining allocation is freed in ascending or descending order of age",
  "bounds_thorough": "all linear recipes, 4 operations, TLSF recipes",
  "assumptions": BLOCK_ASSUME, "outside": OUT}
 checks["C13"] = {
  "level": "model_checking",
- "jobs": [job("Verif_C13_Linear", [0, 3, 4, 7], [0, 1, 2, 3, 4, 5, 6, 7]), job("Verif_C13_TLSF", [0, 1, 20], [0, 1, 2, 10, 20])],
+ "jobs": [job("Verif_C13_Linear", [0, 3, 4, 7, 8], [0, 1, 2, 3, 4, 5, 6, 7, 8]), job("Verif_C13_TLSF", [0, 1, 20], [0, 1, 2, 10, 20])],
  "bounds_quick": LIN_Q + " + recipes L2(2,2), L1(4) with 2 operations; " + TLSF_Q + "; every call runs inside a panic catcher; a refusal must leave all observables unchanged. Block level only (the allocator-level clauses are checked by the vam harnesses).",
  "bounds_thorough": "all recipes, 4 operations",
  "assumptions": BLOCK_ASSUME, "outside": OUT + "; stale handles; alignment 0"}
 checks["C16"] = {
  "level": "model_checking",
- "jobs": [job("Verif_C16_Linear", [0, 2, 3, 4, 7], [0, 1, 2, 3, 4, 5, 6, 7])],
+ "jobs": [job("Verif_C16_Linear", [0, 2, 3, 4, 7, 8], [0, 1, 2, 3, 4, 5, 6, 7, 8])],
  "bounds_quick": LIN_Q + "; " + LIN_RECIPES + " (2 operations after a recipe); success flag and granted offset of every request, and acceptance of every free, compared in lock-step with an independent reference model (sets of live entries; no lazy deletion, no compaction) written from the property statement",
  "bounds_thorough": "4 operations (3 after a recipe), block sizes 100 and 128, compaction family",
  "assumptions": BLOCK_ASSUME + ["granularity 1: no conflict relation in force (granularity bumps are checked against the page rule by C09)"], "outside": OUT}
 checks["C17"] = {
  "level": "model_checking",
- "jobs": [job("Verif_C17_Linear", [0, 3, 4, 7], [0, 1, 2, 3, 4, 5, 6, 7]), job("Verif_C17_TLSF", [0, 1, 20], [0, 1, 10, 20])],
+ "jobs": [job("Verif_C17_Linear", [0, 3, 4, 7, 8], [0, 1, 2, 3, 4, 5, 6, 7, 8]), job("Verif_C17_TLSF", [0, 1, 20], [0, 1, 10, 20])],
  "bounds_quick": LIN_Q + " + recipes L2(2,2), L1(4); " + TLSF_Q + "; after every operation: user data and offset by handle for every live allocation, SetAllocationUserData on each allocation in turn, region visitor and (TLSF) list iteration visit every live allocation exactly once",
  "bounds_thorough": "all recipes, 4 operations",
  "assumptions": BLOCK_ASSUME, "outside": OUT}
 checks["C18"] = {
  "level": "model_checking",
- "jobs": [job("Verif_C18_Linear", [0, 7], [0, 1, 2, 3, 4, 7]), job("Verif_C18_TLSF", [0], [0, 1, 10, 20])],
+ "jobs": [job("Verif_C18_Linear", [0, 7, 8], [0, 1, 2, 3, 4, 7, 8]), job("Verif_C18_TLSF", [0], [0, 1, 10, 20])],
  "bounds_quick": LIN_Q + "; " + TLSF_Q.replace("256 and 320", "256") + "; TLSF: no two adjacent free ranges after every operation; then everything is freed (either order) or the block is cleared, and the block is compared with a freshly initialised one: observables, internal state modulo documented symmetries, and 2 further symbolic requests answered in lock-step",
  "bounds_thorough": "4 operations, linear recipes, TLSF 320 bytes and recipe",
  "assumptions": BLOCK_ASSUME, "outside": OUT}
@@ -100,15 +100,15 @@ checks["C02"] = {"level": "model_checking",
  "bounds_thorough": "4 calls; device variants granularity 1024 / atom 64; custom pools (4 variants incl. linear) and multi-allocations of 2",
  "assumptions": VAM_ASSUME, "outside": VAM_OUT}
 checks["C04"] = {"level": "model_checking",
- "jobs": [vjob("Verif_C04_Hist", [0, 4], [0, 4, 32, 64]), vjob("Verif_C04_VDefrag", [0], [0, 32])],
- "bounds_quick": VAM_HIST + "; " + VDEF + ". After every call CalculateStatistics (per type, per heap, total: block count/bytes, allocation count/bytes, min/max) and HeapBudget (statistics, usage) are compared with the simulated device's live objects and the harness' live set. Fault sequences: see C10 (the same equalities are asserted after every injected failure).",
+ "jobs": [vjob("Verif_C04_Hist", [0, 4], [0, 4, 32, 64]), vjob("Verif_C04_VDefrag", [0], [0, 32]), vjob("Verif_C10_Faults", [96, 128], [96, 128, 0, 64])],
+ "bounds_quick": VAM_HIST + "; " + VDEF + ". After every call CalculateStatistics (per type, per heap, total: block count/bytes, allocation count/bytes, min/max) and HeapBudget (statistics, usage) are compared with the simulated device's live objects and the harness' live set. Fault sequences: the multi-allocation operations of the C10 fault-injection harness are run for C04 as well (statistics after a part-way failure); the other operations see C10.",
  "bounds_thorough": "4 calls, pools, multi-allocations",
  "assumptions": VAM_ASSUME + ["memory-budget extension off (usage == block bytes)"], "outside": VAM_OUT + "; JSON rendering (BuildStatsString)"}
 checks["C07"]["jobs"].append(vjob("Verif_C07_VDefrag", [0, 32], [0, 32, 64, 96]))
 checks["C07"]["bounds_quick"] += " vam layer: " + VDEF
 checks["C07"]["assumptions"] = checks["C07"]["assumptions"] + VAM_ASSUME
 checks["C08"] = {"level": "model_checking",
- "jobs": [vjob("Verif_C08_Kernels", [0], [0]), vjob("Verif_C08_Maps", [2, 34, 98, 226], [2, 34, 98, 226, 0, 32]), vjob("Verif_C08_VDefrag", [0], [0, 32])],
+ "jobs": [vjob("Verif_C08_Kernels", [0], [0]), vjob("Verif_C08_Maps", [2, 34, 98, 226, 256], [2, 34, 98, 226, 0, 32, 256, 288]), vjob("Verif_C08_VDefrag", [0], [0, 32])],
  "bounds_quick": "kernel at full width: minimum alignment of a memory type for all flag words and atom sizes 2^0..2^12; scripts on two allocations sharing a block (coherent and non-coherent type, atom 64): 0 or 4 map/unmap pairs, 0 or 4 allocate/free pairs (drives the mapping hysteresis over its 7-event thresholds), then one of 5 final operation groups (map/unmap, nested maps of two allocations, map + free of the neighbour, free + map of the neighbour, persistently mapped allocation); flush/invalidate with symbolic offset and size (any positive size, WholeSize) on either allocation; defragmentation run; every driver call is checked by the simulated device against the valid-usage rules of the property, flush ranges additionally against the other live allocations",
  "bounds_thorough": "0/3/4 pairs, all device variants",
  "assumptions": VAM_ASSUME + ["caller obligations: flush/invalidate only while the allocation is mapped, balanced Map/Unmap, offset >= 0"], "outside": VAM_OUT + "; bind offsets chosen by the caller; image binds"}
@@ -131,8 +131,8 @@ checks["C13"]["jobs"] += [vjob("Verif_C13_Hist", [0, 96], [0, 32, 64, 96])]
 checks["C13"]["bounds_quick"] += " Allocator level: " + VAM_HIST + " with every call inside a panic catcher; refusals compared with a snapshot of device objects, live allocations and counters; CreatePool with every memory type index in [-2,40]."
 checks["C13"]["assumptions"] = checks["C13"]["assumptions"] + VAM_ASSUME
 checks["C14"] = {"level": "model_checking",
- "jobs": [vjob("Verif_C14_Maps", [2, 34], [2, 34, 0, 32]), vjob("Verif_C14_VDefrag", [0, 128], [0, 32, 128, 160])],
- "bounds_quick": "the C08 scripts (hysteresis-crossing map/unmap and allocate/free sequences on allocations sharing a block) and the defragmentation run: every Map must return base(Memory()) + FindOffset() of the allocation's current location with the object mapped in the driver; after every event the memory behind persistent mappings and outstanding user maps is still mapped; persistently mapped allocations stay mapped after relocation",
+ "jobs": [vjob("Verif_C14_Maps", [2, 34, 256], [2, 34, 0, 32, 256, 288]), vjob("Verif_C14_VDefrag", [0, 128], [0, 32, 128, 160])],
+ "bounds_quick": "the C08 scripts (hysteresis-crossing map/unmap and allocate/free sequences on allocations sharing a block; a sweep of all 7 phases of the 7-event hysteresis window with 3 or 4 map/unmap pairs followed by 3 or 4 allocate/free pairs, fixed sizes) and the defragmentation run: every Map must return base(Memory()) + FindOffset() of the allocation's current location with the object mapped in the driver; after every event the memory behind persistent mappings and outstanding user maps is still mapped; persistently mapped allocations stay mapped after relocation",
  "bounds_thorough": "0/3/4 pairs, device variants",
  "assumptions": VAM_ASSUME + ["stores through the pointer are modelled as address ranges (pointer value + size), not simulated"], "outside": VAM_OUT}
 checks["C15"]["jobs"] += [vjob("Verif_C15_VDefrag", [0], [0, 32]), vjob("Verif_C15_VReuse", [0, 32], [0, 32])]
@@ -149,8 +149,8 @@ checks["C20"] = {"level": "model_checking",
  "assumptions": VAM_ASSUME, "outside": VAM_OUT}
 
 checks["C12"] = {"level": "exploration",
- "jobs": [vjob("Verif_C12_Pairs", [0, 1, 2, 3, 4, 5, 6], [0, 1, 2, 3, 4, 5, 6])],
- "bounds_quick": "REDUCED FORM of the property: two goroutines, each running one API call (or a map+unmap pair), for 7 pairs named in the statement: allocate || free of distinct allocations of one block list; map/unmap || allocate in the same block; map/unmap || map/unmap of two allocations sharing a block; dedicated allocate || CalculateStatistics; pool create || pool destroy; CalculateStatistics || free; free || free. Every schedule with at most 2 pre-emptions is explored (scheduling points: mutex, atomic and sync.Pool operations, goroutine start/end; the scheduler's choices are decisions of the symbolic executor, one request size is symbolic); a vector-clock happens-before monitor over heap slots reports data races, a blocked-everywhere state reports deadlock; after the join the C02/C04 oracles and the error results are asserted. A reported race is confirmed natively by running the same harness 300 times under `go test -race`.",
+ "jobs": [vjob("Verif_C12_Pairs", [0, 1, 2, 3, 4, 5, 6, 7], [0, 1, 2, 3, 4, 5, 6, 7])],
+ "bounds_quick": "REDUCED FORM of the property: two goroutines, each running one API call (or a map+unmap pair), for 8 pairs named in the statement: allocate || free of distinct allocations of one block list; map/unmap || allocate in the same block; map/unmap || map/unmap of two allocations sharing a block; dedicated allocate || CalculateStatistics; pool create || pool destroy; CalculateStatistics || free; free || free (same block); free || free of the only allocations of two different blocks of one pool (the totals must equal those of a sequential execution: exactly one spare empty block remains). Every schedule with at most 2 pre-emptions is explored (scheduling points: mutex, atomic and sync.Pool operations, goroutine start/end; the scheduler's choices are decisions of the symbolic executor, one request size is symbolic); a vector-clock happens-before monitor over heap slots reports data races, a blocked-everywhere state reports deadlock; after the join the C02/C04 oracles and the error results are asserted. A reported race is confirmed natively by running the same harness 300 times under `go test -race`.",
  "bounds_thorough": "same pairs (the thorough tier validates more schedules natively)",
  "assumptions": VAM_ASSUME + ["sequentially consistent atomics; happens-before edges from mutexes (RLock treated like Lock), atomics, sync.Pool, goroutine start and join", "the simulated driver is internally locked (as a Vulkan driver is thread-safe for distinct objects); its lock adds happens-before edges that can hide a race between accesses separated by driver calls on both sides", "race monitor granularity: heap slots reached through loads and stores; element accesses inside append/copy and map operations are not monitored"],
  "outside": "more than two goroutines; longer operation sequences per goroutine; schedules with more than 2 pre-emptions; pre-emption between two plain memory accesses (only relevant for racy code, which the monitor reports anyway); BuildStatsString; weak-memory effects; this is bounded schedule exploration, not a proof of race freedom"}
